@@ -1,12 +1,11 @@
 #!/usr/bin/env bash
-# Offline setup: build the harness once (warms the Go build cache). Uses only
-# files on disk: /repo, /verif/harness and the Go module cache.
-set -eu
+# Offline setup: build the harness binary of every claimed check once (warms the
+# Go build cache). Uses only files on disk: /repo, /verif/harness, the Go module cache.
+set -u
 ROOT="$(cd "$(dirname "${BASH_SOURCE[0]}")" && pwd)"
-export GOFLAGS=-mod=mod GOPROXY=off GOSUMDB=off GOTOOLCHAIN=local
 mkdir -p "$ROOT/build" "$ROOT/evidence" "$ROOT/replay"
-cd "$ROOT/harness"
-cp /repo/go.sum go.sum
-go build -tags verif -o "$ROOT/build/ottocheck" ./cmd/ottocheck
-go build -race -tags verif -o "$ROOT/build/ottocheck.race" ./cmd/ottocheck
-echo "setup ok: $("$ROOT/build/ottocheck" list | tr '\n' ' ')"
+rc=0
+for P in $(python3 -c "import json;print(' '.join(c['property_id'] for c in json.load(open('$ROOT/MANIFEST.json'))['checks']))"); do
+  "$ROOT/check" "$P" --build-only || rc=1
+done
+exit $rc
